@@ -425,3 +425,390 @@ func init() {
 		ex(xr, "rShuffle", "shuffleN", "call[r.Shuffle][0].arg[0]", "Int", I("len"), map[string]string{"len(a)": "len"}),
 	)
 }
+
+// ---------------------------------------------------------------------------------------------
+// Thin wrappers (extension of C19 to every exported helper).
+//
+// wrapperSite translates a helper whose body is one `return <expr>` or one call statement
+// (optionally preceded by `var zero T` declarations) into a Lean definition in which every callee
+// (`slices.ContainsFunc`, `sort.Slice`, `min`, another helper of the package, ...) is a *parameter*
+// of the definition: the model instantiates those parameters with the documented contract of the
+// standard-library function (Model/HelpersStdlib.lean, trusted base), everything else - which
+// function is called, with which arguments in which order, the polarity of a predicate adapter,
+// `idx+n`, `slices.Clone` before an in-place function - is regenerated from the source. `sig` is
+// the Lean binder list and result type; `vars` maps Go expression text to Lean terms; `callees`
+// maps callee text to the Lean parameter that stands for it; function literals become `fun`s
+// (with `litBinder` as an extra first binder when the literal reads a captured slice whose
+// contents change during the call, e.g. the index-less adapter handed to sort.Slice).
+func wrapperSite(mod, pkg, fn, name, sig string, vars, callees map[string]string, litBinder string) Site {
+	return Site{Module: mod, Pkg: pkg, Func: fn, Name: name, Kind: Custom,
+		Custom: func(c *Ctx, s *Site) (string, error) {
+			fd, err := c.FindFunc(pkg, fn)
+			if err != nil {
+				return "", err
+			}
+			vs := map[string]string{}
+			for k, v := range vars {
+				vs[k] = v
+			}
+			var tr func(e ast.Expr, vs map[string]string) (string, error)
+			tr = func(e ast.Expr, vs map[string]string) (string, error) {
+				txt := c.Text(e)
+				if v, ok := vs[txt]; ok {
+					return v, nil
+				}
+				switch n := e.(type) {
+				case *ast.ParenExpr:
+					return tr(n.X, vs)
+				case *ast.BasicLit:
+					if n.Kind != token.INT {
+						return "", fmt.Errorf("unsupported literal %s", txt)
+					}
+					return "(" + n.Value + " : Int)", nil
+				case *ast.Ident:
+					return "", fmt.Errorf("unmapped identifier %q", n.Name)
+				case *ast.UnaryExpr:
+					a, err := tr(n.X, vs)
+					if err != nil {
+						return "", err
+					}
+					switch n.Op {
+					case token.NOT:
+						return "(!" + a + ")", nil
+					case token.SUB:
+						return "(-" + a + ")", nil
+					}
+					return "", fmt.Errorf("unsupported unary %s", n.Op)
+				case *ast.BinaryExpr:
+					a, err := tr(n.X, vs)
+					if err != nil {
+						return "", err
+					}
+					b, err := tr(n.Y, vs)
+					if err != nil {
+						return "", err
+					}
+					switch n.Op {
+					case token.ADD, token.SUB, token.MUL:
+						return "(" + a + " " + n.Op.String() + " " + b + ")", nil
+					case token.EQL:
+						return "(" + a + " == " + b + ")", nil
+					case token.NEQ:
+						return "(" + a + " != " + b + ")", nil
+					case token.LAND:
+						return "(" + a + " && " + b + ")", nil
+					case token.LOR:
+						return "(" + a + " || " + b + ")", nil
+					case token.LSS:
+						return "(decide (" + a + " < " + b + "))", nil
+					case token.GTR:
+						return "(decide (" + a + " > " + b + "))", nil
+					}
+					return "", fmt.Errorf("unsupported operator %s", n.Op)
+				case *ast.CallExpr:
+					fun := c.Text(n.Fun)
+					lean, ok := callees[fun]
+					if !ok {
+						lean, ok = vs[fun]
+					}
+					if !ok {
+						return "", fmt.Errorf("unexpected callee %s in %s", fun, txt)
+					}
+					out := "(" + lean
+					for _, a := range n.Args {
+						t, err := tr(a, vs)
+						if err != nil {
+							return "", err
+						}
+						out += " " + t
+					}
+					return out + ")", nil
+				case *ast.FuncLit:
+					inner := map[string]string{}
+					for k, v := range vs {
+						inner[k] = v
+					}
+					binders := ""
+					if litBinder != "" {
+						binders = " " + litBinder
+					}
+					for _, f := range n.Type.Params.List {
+						for _, nm := range f.Names {
+							inner[nm.Name] = nm.Name
+							binders += " " + nm.Name
+						}
+					}
+					if len(n.Body.List) != 1 {
+						return "", fmt.Errorf("function literal with %d statements", len(n.Body.List))
+					}
+					r, ok := n.Body.List[0].(*ast.ReturnStmt)
+					if !ok || len(r.Results) != 1 {
+						return "", fmt.Errorf("function literal is not `return e`")
+					}
+					b, err := tr(r.Results[0], inner)
+					if err != nil {
+						return "", err
+					}
+					return "(fun" + binders + " => " + b + ")", nil
+				}
+				return "", fmt.Errorf("unsupported expression %s", txt)
+			}
+			stmts := fd.Body.List
+			for len(stmts) > 1 {
+				ds, ok := stmts[0].(*ast.DeclStmt)
+				if !ok {
+					break
+				}
+				gd, ok := ds.Decl.(*ast.GenDecl)
+				if !ok || gd.Tok != token.VAR {
+					break
+				}
+				for _, sp := range gd.Specs {
+					v := sp.(*ast.ValueSpec)
+					if len(v.Values) != 0 {
+						return "", fmt.Errorf("initialised var declaration in %s", fn)
+					}
+					for _, nm := range v.Names {
+						vs[nm.Name] = "zero" // `var x T` is the zero value
+					}
+				}
+				stmts = stmts[1:]
+			}
+			if len(stmts) != 1 {
+				return "", fmt.Errorf("%s is not a one-statement wrapper (%d statements)", fn, len(stmts))
+			}
+			var e ast.Expr
+			switch x := stmts[0].(type) {
+			case *ast.ReturnStmt:
+				if len(x.Results) != 1 {
+					return "", fmt.Errorf("%s returns %d values", fn, len(x.Results))
+				}
+				e = x.Results[0]
+			case *ast.ExprStmt:
+				e = x.X
+			default:
+				return "", fmt.Errorf("%s: unsupported statement %s", fn, c.Pretty(stmts[0]))
+			}
+			t, err := tr(e, vs)
+			if err != nil {
+				return "", err
+			}
+			return fmt.Sprintf("/-- whole function `%s`: `%s` -/\ndef %s %s :=\n  %s\n", fn, c.Pretty(stmts[0]), name, sig, t), nil
+		}}
+}
+
+func init() {
+	const mod = "Helpers"
+	I := func(names ...string) []Param {
+		var ps []Param
+		for _, n := range names {
+			ps = append(ps, Param{n, "Int"})
+		}
+		return ps
+	}
+	B := func(names ...string) []Param {
+		var ps []Param
+		for _, n := range names {
+			ps = append(ps, Param{n, "Bool"})
+		}
+		return ps
+	}
+	ex := func(pkg, fn, name, sel, typ string, ps []Param, vars map[string]string) Site {
+		return Site{Module: mod, Pkg: pkg, Func: fn, Name: name, Kind: Expr, Sel: sel, Type: typ, Params: ps, Vars: vars}
+	}
+	present := func(pkg, fn, name, sel, text string) Site {
+		return Site{Module: mod, Pkg: pkg, Func: fn, Name: name, Kind: Present, Sel: sel, Text: text}
+	}
+	count := func(pkg, fn, name, sel, text string) Site {
+		return Site{Module: mod, Pkg: pkg, Func: fn, Name: name, Kind: Count, Sel: sel, Text: text}
+	}
+	stmts := func(pkg, fn, name string) Site {
+		return Site{Module: mod, Pkg: pkg, Func: fn, Name: name, Kind: StmtList}
+	}
+	body := func(pkg, fn, name, sel string) Site {
+		return Site{Module: mod, Pkg: pkg, Func: fn, Name: name, Kind: StmtList, Sel: sel}
+	}
+	fn := func(pkg, f, name, sel, typ string, ps []Param, vars map[string]string) Site {
+		return Site{Module: mod, Pkg: pkg, Func: f, Name: name, Kind: Func, Sel: sel, Type: typ, Params: ps, Vars: vars}
+	}
+	id := func(names ...string) map[string]string {
+		m := map[string]string{}
+		for _, n := range names {
+			m[n] = n
+		}
+		return m
+	}
+	w := func(pkg, f, name, sig string, vars, callees map[string]string) Site {
+		return wrapperSite(mod, pkg, f, name, sig, vars, callees, "")
+	}
+
+	// ------------------------------------------------------------------ xslices: own loops
+	const xs = "xslices"
+	register(
+		// All
+		ex(xs, "All", "allStops", "range[0].body/if[0].cond", "Bool", B("fi"), map[string]string{"f(s[i])": "fi"}),
+		ex(xs, "All", "allStopVal", "range[0].body/if[0].body/return[0].result[0]", "Bool", nil, nil),
+		ex(xs, "All", "allEndVal", "return[1].result[0]", "Bool", nil, nil),
+		// CountFunc
+		ex(xs, "CountFunc", "cfInit", "assign[n][0].rhs", "Int", nil, nil),
+		ex(xs, "CountFunc", "cfTakes", "range[0].body/if[0].cond", "Bool", B("fs"), map[string]string{"f(s)": "fs"}),
+		count(xs, "CountFunc", "cfIncs", "range[0].body/if[0].body", "n++"),
+		ex(xs, "CountFunc", "cfRet", "return[0].result[0]", "Int", I("n"), id("n")),
+		// Fill
+		body(xs, "Fill", "fillBody", "range[0].body"),
+		// Group
+		body(xs, "Group", "groupBody", "range[0].body"),
+		// Join
+		ex(xs, "Join", "joinN0", "assign[n][0].rhs", "Int", nil, nil),
+		body(xs, "Join", "joinSumBody", "range[0].body"),
+		ex(xs, "Join", "joinMakeLen", "call[make][0].arg[1]", "Int", I("n"), id("n")),
+		ex(xs, "Join", "joinMakeCap", "call[make][0].arg[2]", "Int", I("n"), id("n")),
+		body(xs, "Join", "joinAppendBody", "range[1].body"),
+		// LastIndex / LastIndexFunc
+		ex(xs, "LastIndex", "liStart", "assign[i][0].rhs", "Int", I("len"), map[string]string{"len(s)": "len"}),
+		ex(xs, "LastIndex", "liCond", "for[0].cond", "Bool", I("i"), id("i")),
+		ex(xs, "LastIndex", "liHit", "for[0].body/if[0].cond", "Bool", B("eq"), map[string]string{"s[i]==x": "eq"}),
+		ex(xs, "LastIndex", "liRet", "for[0].body/if[0].body/return[0].result[0]", "Int", I("i"), id("i")),
+		ex(xs, "LastIndex", "liNone", "return[1].result[0]", "Int", nil, nil),
+		count(xs, "LastIndex", "liDecs", "for[0].post", "i--"),
+		ex(xs, "LastIndexFunc", "lifStart", "assign[i][0].rhs", "Int", I("len"), map[string]string{"len(s)": "len"}),
+		ex(xs, "LastIndexFunc", "lifCond", "for[0].cond", "Bool", I("i"), id("i")),
+		ex(xs, "LastIndexFunc", "lifHit", "for[0].body/if[0].cond", "Bool", B("fi"), map[string]string{"f(s[i])": "fi"}),
+		ex(xs, "LastIndexFunc", "lifRet", "for[0].body/if[0].body/return[0].result[0]", "Int", I("i"), id("i")),
+		ex(xs, "LastIndexFunc", "lifNone", "return[1].result[0]", "Int", nil, nil),
+		count(xs, "LastIndexFunc", "lifDecs", "for[0].post", "i--"),
+		// Map
+		ex(xs, "Map", "mapMake", "call[make][0].arg[1]", "Int", I("len"), map[string]string{"len(s)": "len"}),
+		body(xs, "Map", "mapBody", "range[0].body"),
+		// Reduce
+		present(xs, "Reduce", "reduceStartsAtInitial", "", "out := initial"),
+		body(xs, "Reduce", "reduceBody", "range[0].body"),
+		// Repeat
+		ex(xs, "Repeat", "repeatMake", "call[make][0].arg[1]", "Int", I("n"), id("n")),
+		body(xs, "Repeat", "repeatBody", "range[0].body"),
+	)
+	// ------------------------------------------------------------------ xslices: wrappers
+	register(
+		w(xs, "Clear", "clearW", "{S T R : Type} (fill : S → T → R) (zero : T) (s : S) : R", id("s"), map[string]string{"Fill": "fill"}),
+		w(xs, "Count", "countW", "{S T R : Type} [BEq T] (countFunc : S → (T → Bool) → R) (s : S) (x : T) : R", id("s", "x"), map[string]string{"CountFunc": "countFunc"}),
+		w(xs, "Any", "anyW", "{S F R : Type} (slicesContainsFunc : S → F → R) (s : S) (f : F) : R", id("s", "f"), map[string]string{"slices.ContainsFunc": "slicesContainsFunc"}),
+		w(xs, "Clone", "cloneW", "{S R : Type} (slicesClone : S → R) (s : S) : R", id("s"), map[string]string{"slices.Clone": "slicesClone"}),
+		w(xs, "Compact", "compactW", "{S S' R : Type} (slicesCompact : S' → R) (slicesClone : S → S') (s : S) : R", id("s"),
+			map[string]string{"slices.Compact": "slicesCompact", "slices.Clone": "slicesClone"}),
+		w(xs, "CompactInPlace", "compactInPlaceW", "{S R : Type} (slicesCompact : S → R) (s : S) : R", id("s"), map[string]string{"slices.Compact": "slicesCompact"}),
+		w(xs, "CompactFunc", "compactFuncW", "{S S' E R : Type} (slicesCompactFunc : S' → E → R) (slicesClone : S → S') (s : S) (eq : E) : R", id("s", "eq"),
+			map[string]string{"slices.CompactFunc": "slicesCompactFunc", "slices.Clone": "slicesClone"}),
+		w(xs, "CompactInPlaceFunc", "compactInPlaceFuncW", "{S E R : Type} (slicesCompactFunc : S → E → R) (s : S) (eq : E) : R", id("s", "eq"),
+			map[string]string{"slices.CompactFunc": "slicesCompactFunc"}),
+		w(xs, "Equal", "equalW", "{S R : Type} (slicesEqual : S → S → R) (a b : S) : R", id("a", "b"), map[string]string{"slices.Equal": "slicesEqual"}),
+		w(xs, "EqualFunc", "equalFuncW", "{S E R : Type} (slicesEqualFunc : S → S → E → R) (a b : S) (eq : E) : R", id("a", "b", "eq"),
+			map[string]string{"slices.EqualFunc": "slicesEqualFunc"}),
+		w(xs, "Filter", "filterW", "{S S' T R : Type} (slicesDeleteFunc : S' → (T → Bool) → R) (slicesClone : S → S') (s : S) (keep : T → Bool) : R", id("s", "keep"),
+			map[string]string{"slices.DeleteFunc": "slicesDeleteFunc", "slices.Clone": "slicesClone"}),
+		w(xs, "FilterInPlace", "filterInPlaceW", "{S T R : Type} (slicesDeleteFunc : S → (T → Bool) → R) (s : S) (keep : T → Bool) : R", id("s", "keep"),
+			map[string]string{"slices.DeleteFunc": "slicesDeleteFunc"}),
+		w(xs, "Grow", "growW", "{S R : Type} (slicesGrow : S → Int → R) (s : S) (n : Int) : R", id("s", "n"), map[string]string{"slices.Grow": "slicesGrow"}),
+		w(xs, "Index", "indexW", "{S T R : Type} (slicesIndex : S → T → R) (s : S) (x : T) : R", id("s", "x"), map[string]string{"slices.Index": "slicesIndex"}),
+		w(xs, "IndexFunc", "indexFuncW", "{S F R : Type} (slicesIndexFunc : S → F → R) (s : S) (f : F) : R", id("s", "f"), map[string]string{"slices.IndexFunc": "slicesIndexFunc"}),
+		w(xs, "Insert", "insertW", "{S V R : Type} (slicesInsert : S → Int → V → R) (s : S) (idx : Int) (values : V) : R", map[string]string{"s": "s", "idx": "idx", "values...": "values", "values": "values"},
+			map[string]string{"slices.Insert": "slicesInsert"}),
+		w(xs, "Remove", "removeW", "{S R : Type} (slicesDelete : S → Int → Int → R) (s : S) (idx n : Int) : R", id("s", "idx", "n"), map[string]string{"slices.Delete": "slicesDelete"}),
+	)
+	// ------------------------------------------------------------------ xsort
+	const so = "xsort"
+	lv := map[string]string{"less(a,b)": "lab", "less(b,a)": "lba"}
+	register(
+		fn(so, "Greater", "greater", "", "Bool", B("lab", "lba"), lv),
+		fn(so, "LessOrEqual", "lessOrEqual", "", "Bool", B("lab", "lba"), lv),
+		fn(so, "GreaterOrEqual", "greaterOrEqual", "", "Bool", B("lab", "lba"), lv),
+		fn(so, "Equal", "sortEqual", "", "Bool", B("lab", "lba"), lv),
+		fn(so, "Reverse", "sortReverse", "funclit[0].body", "Bool", B("lab", "lba"), lv),
+		w(so, "OrderedLess", "orderedLessW", "{T R : Type} (cmpLess : T → T → R) (a b : T) : R", id("a", "b"), map[string]string{"cmp.Less": "cmpLess"}),
+		wrapperSite(mod, so, "Slice", "sortSliceW", "{S T R : Type} (sortSlice : S → (S → Int → Int → Bool) → R) (elemAt : S → Int → T) (x : S) (less : T → T → Bool) : R",
+			map[string]string{"x": "x", "less": "less", "x[i]": "(elemAt cur i)", "x[j]": "(elemAt cur j)"}, map[string]string{"sort.Slice": "sortSlice"}, "cur"),
+		wrapperSite(mod, so, "SliceStable", "sortSliceStableW", "{S T R : Type} (sortSliceStable : S → (S → Int → Int → Bool) → R) (elemAt : S → Int → T) (x : S) (less : T → T → Bool) : R",
+			map[string]string{"x": "x", "less": "less", "x[i]": "(elemAt cur i)", "x[j]": "(elemAt cur j)"}, map[string]string{"sort.SliceStable": "sortSliceStable"}, "cur"),
+		wrapperSite(mod, so, "SliceIsSorted", "sortSliceIsSortedW", "{S T R : Type} (sortSliceIsSorted : S → (S → Int → Int → Bool) → R) (elemAt : S → Int → T) (x : S) (less : T → T → Bool) : R",
+			map[string]string{"x": "x", "less": "less", "x[i]": "(elemAt cur i)", "x[j]": "(elemAt cur j)"}, map[string]string{"sort.SliceIsSorted": "sortSliceIsSorted"}, "cur"),
+	)
+	// MergeSlices: `out = xslices.Grow(out[:0], n)` decides whether the caller's buffer is re-used
+	register(
+		sliceBound(mod, so, "MergeSlices", "msGrowHi", "out", 0, "hi", nil, nil, ""),
+		ex(so, "MergeSlices", "msGrowN", "call[xslices.Grow][0].arg[1]", "Int", I("n"), id("n")),
+		ex(so, "MergeSlices", "msN0", "assign[n][0].rhs", "Int", nil, nil),
+		body(so, "MergeSlices", "msSumBody", "range[0].body"),
+	)
+	// ------------------------------------------------------------------ xmaps: guards and flags of the loops
+	const xm = "xmaps"
+	register(
+		ex(xm, "ReverseSingle", "rsOk0", "assign[allOk][0].rhs", "Bool", nil, nil),
+		ex(xm, "ReverseSingle", "rsDup", "range[0].body/if[0].cond", "Bool", B("ok"), id("ok")),
+		ex(xm, "ReverseSingle", "rsDupVal", "range[0].body/if[0].body/assign[allOk][0].rhs", "Bool", nil, nil),
+		body(xm, "ReverseSingle", "rsBody", "range[0].body"),
+		body(xm, "Reverse", "mapRevBody", "range[0].body"),
+		body(xm, "ToIndex", "toIndexBody", "range[0].body"),
+		ex(xm, "FromKeysAndValues", "fkvPanics", "if[0].cond", "Bool", I("klen", "vlen"), map[string]string{"len(keys)": "klen", "len(values)": "vlen"}),
+		ex(xm, "FromKeysAndValues", "fkvOk0", "assign[allOk][0].rhs", "Bool", nil, nil),
+		ex(xm, "FromKeysAndValues", "fkvDup", "range[0].body/if[0].cond", "Bool", B("ok"), id("ok")),
+		ex(xm, "FromKeysAndValues", "fkvDupVal", "range[0].body/if[0].body/assign[allOk][0].rhs", "Bool", nil, nil),
+		body(xm, "FromKeysAndValues", "fkvBody", "range[0].body"),
+		body(xm, "Union", "unionBody", "range[1].body"),
+		ex(xm, "Intersection", "interEmpty", "if[0].cond", "Bool", I("n"), map[string]string{"len(sets)": "n"}),
+		ex(xm, "Intersection", "interJ0", "assign[j][0].rhs", "Int", nil, nil),
+		ex(xm, "Intersection", "interLoop", "range[0].body/for[0].cond", "Bool", I("j", "n"), map[string]string{"j": "j", "len(sets)": "n"}),
+		count(xm, "Intersection", "interIncs", "range[0].body/for[0].post", "j++"),
+		ex(xm, "Intersection", "interInclude0", "range[0].body/assign[include][0].rhs", "Bool", nil, nil),
+		ex(xm, "Intersection", "interMiss", "range[0].body/for[0].body/if[0].cond", "Bool", B("ok"), id("ok")),
+		ex(xm, "Intersection", "interMissVal", "range[0].body/for[0].body/if[0].body/assign[include][0].rhs", "Bool", nil, nil),
+		present(xm, "Intersection", "interMissBreaks", "range[0].body/for[0].body/if[0].body", "break"),
+		ex(xm, "Intersection", "interStores", "range[0].body/if[1].cond", "Bool", B("incl"), map[string]string{"include": "incl"}),
+		present(xm, "Intersection", "interSortsBySize", "", "xsort.Slice(sets, func(a, b S) bool { return len(a) < len(b) })"),
+		ex(xm, "Intersects", "intsEmpty", "if[0].cond", "Bool", I("n"), map[string]string{"len(sets)": "n"}),
+		ex(xm, "Intersects", "intsEmptyRet", "if[0].body/return[0].result[0]", "Bool", nil, nil),
+		ex(xm, "Intersects", "intsJ0", "assign[j][0].rhs", "Int", nil, nil),
+		ex(xm, "Intersects", "intsLoop", "range[0].body/for[0].cond", "Bool", I("j", "n"), map[string]string{"j": "j", "len(sets)": "n"}),
+		count(xm, "Intersects", "intsIncs", "range[0].body/for[0].post", "j++"),
+		ex(xm, "Intersects", "intsInclude0", "range[0].body/assign[include][0].rhs", "Bool", nil, nil),
+		ex(xm, "Intersects", "intsMiss", "range[0].body/for[0].body/if[0].cond", "Bool", B("ok"), id("ok")),
+		ex(xm, "Intersects", "intsMissVal", "range[0].body/for[0].body/if[0].body/assign[include][0].rhs", "Bool", nil, nil),
+		present(xm, "Intersects", "intsMissBreaks", "range[0].body/for[0].body/if[0].body", "break"),
+		ex(xm, "Intersects", "intsHit", "range[0].body/if[1].cond", "Bool", B("incl"), map[string]string{"include": "incl"}),
+		ex(xm, "Intersects", "intsHitRet", "range[0].body/if[1].body/return[0].result[0]", "Bool", nil, nil),
+		ex(xm, "Intersects", "intsEndRet", "return[2].result[0]", "Bool", nil, nil),
+		present(xm, "Intersects", "intsSortsBySize", "", "xsort.Slice(sets, func(a, b S) bool { return len(a) < len(b) })"),
+		ex(xm, "Difference", "diffKeeps", "range[0].body/if[0].cond", "Bool", B("ok"), id("ok")),
+		body(xm, "Difference", "diffBody", "range[0].body"),
+	)
+	// ------------------------------------------------------------------ statement shapes
+	// The flattened statement list of every helper whose loop structure is mirrored by hand in
+	// Model/Helpers*.lean. Proofs/HelpersShapes.lean pins each list (`shape_<helper>`, by rfl): when a
+	// statement of such a helper is added, dropped, moved or edited, that theorem stops checking, so
+	// the hand-written shape cannot drift from the source unnoticed.
+	for _, sh := range [][3]string{
+		{xs, "All", "shapeAll"}, {xs, "Chunk", "shapeChunk"}, {xs, "CountFunc", "shapeCountFunc"}, {xs, "Fill", "shapeFill"},
+		{xs, "Group", "shapeGroup"}, {xs, "Join", "shapeJoin"}, {xs, "LastIndex", "shapeLastIndex"}, {xs, "LastIndexFunc", "shapeLastIndexFunc"},
+		{xs, "Map", "shapeMap"}, {xs, "Partition", "shapePartition"}, {xs, "Reduce", "shapeReduce"}, {xs, "RemoveUnordered", "shapeRemoveUnordered"},
+		{xs, "Repeat", "shapeRepeat"}, {xs, "Reverse", "shapeReverse"}, {xs, "Runs", "shapeRuns"}, {xs, "Shrink", "shapeShrink"},
+		{xs, "Unique", "shapeUnique"}, {xs, "UniqueInPlace", "shapeUniqueInPlace"}, {xs, "uniqueInto", "shapeUniqueInto"},
+		{so, "Search", "shapeSearch"}, {so, "mergeIterator.Next", "shapeMergeNext"}, {so, "Merge", "shapeMerge"}, {so, "MergeSlices", "shapeMergeSlices"},
+		{so, "MinK", "shapeMinK"},
+		{xm, "Reverse", "shapeMapReverse"}, {xm, "ReverseSingle", "shapeReverseSingle"}, {xm, "ToIndex", "shapeToIndex"},
+		{xm, "FromKeysAndValues", "shapeFromKeysAndValues"}, {xm, "SetFromSlice", "shapeSetFromSlice"}, {xm, "Union", "shapeUnion"},
+		{xm, "Intersection", "shapeIntersection"}, {xm, "Intersects", "shapeIntersects"}, {xm, "Difference", "shapeDifference"},
+		{"xerrors", "WithStack", "shapeWithStack"}, {"xerrors", "withStack.Unwrap", "shapeUnwrap"},
+		{"xmath/xrand", "rShuffle", "shapeRShuffle"}, {"xmath/xrand", "rSample", "shapeRSample"}, {"xmath/xrand", "rSampleSlice", "shapeRSampleSlice"},
+		{"xmath/xrand", "rSampleIterator", "shapeRSampleIterator"}, {"xmath/xrand", "rSampleStream", "shapeRSampleStream"},
+		{"xmath/xrand", "sampler.Next", "shapeSamplerNext"}, {"xmath/xrand", "newSampler", "shapeNewSampler"},
+	} {
+		register(stmts(sh[0], sh[1], sh[2]))
+	}
+	// ------------------------------------------------------------------ xmaps.Set, xmath.Min / Max
+	register(
+		stmts("xmaps", "Set.Add", "setAddBody"),
+		stmts("xmaps", "Set.Remove", "setRemoveBody"),
+		stmts("xmaps", "Set.Contains", "setContainsBody"),
+		body("xmaps", "SetFromSlice", "sfsBody", "range[0].body"),
+		w("xmath", "Min", "minW", "{T : Type} (builtinMin : T → T → T) (a b : T) : T", id("a", "b"), map[string]string{"min": "builtinMin"}),
+		w("xmath", "Max", "maxW", "{T : Type} (builtinMax : T → T → T) (a b : T) : T", id("a", "b"), map[string]string{"max": "builtinMax"}),
+	)
+}
